@@ -55,9 +55,20 @@ func (p *Params) ParamSetPairs() paramtypes.ParamSetPairs {
 }
 
 func validateGasPrices(i interface{}) error {
-	_, ok := i.(sdk.DecCoins)
+	v, ok := i.(sdk.DecCoins)
 	if !ok {
 		return fmt.Errorf("invalid parameter type: %T", i)
+	}
+
+	// the fee checker multiplies every price and builds a coin from it: a price must be a price. The order of the list is
+	// governance's choice (the first denomination an offer covers is the one charged), so the list is not required to be sorted.
+	for _, price := range v {
+		if err := sdk.ValidateDenom(price.Denom); err != nil {
+			return fmt.Errorf("invalid gas price denomination: %w", err)
+		}
+		if price.Amount.IsNil() || price.Amount.IsNegative() {
+			return fmt.Errorf("invalid gas price amount for %s", price.Denom)
+		}
 	}
 
 	return nil
@@ -123,6 +134,10 @@ func (p Params) Validate() error {
 	}
 
 	if err := validateSupportedChains(p.SupportedChains); err != nil {
+		return err
+	}
+
+	if err := validateGasPrices(p.GasPrices); err != nil {
 		return err
 	}
 
